@@ -952,6 +952,8 @@ def numerics_propagate(ctx):
     cases += [("variational", variational_dynsys(mu), v0, m, o) for m, o in ([("fixed", 6), ("adaptive", 8), ("adaptive", 5)] if ctx.thorough() else [("adaptive", 8)])]
     hs, hfield, hy0 = _poly_ham_system()
     cases += [("polyham", hs, hy0, "symplectic", o) for o in ([2, 4, 6, 8] if ctx.thorough() else [4, 6])]
+    # the polynomial Hamiltonian system also goes through the RK drivers' Hamiltonian fast paths (`*_ham` kernels), forward and backward
+    cases += [("polyham", hs, hy0, m, o) for m, o in (methods_all if ctx.thorough() else [("fixed", 4), ("fixed", 8), ("adaptive", 5), ("adaptive", 8)])]
     rt_table = {}
     for name, sysm, y0, method, order in cases:
         T = rng.choice([0.75, 1.0, 1.25])
@@ -1052,6 +1054,41 @@ def numerics_propagate(ctx):
                        "requested_times_first_last": [0.0, 1.0], "returned_times_first_last": [float(s_dir.times[0]), float(s_dir.times[-1])]})
 
 
+def numerics_public(ctx):
+    """the public entry point `System.propagate(..., forward=+-1)` on ONE system object (its service caches trajectories): forward then
+    backward with otherwise identical arguments, and the other way round; stamps, first sample, flow at -T (SciPy reference)."""
+    from scipy.integrate import solve_ivp
+    from hiten import System
+    from hiten.algorithms.dynamics.rtbp import _crtbp_accel
+    rng = ctx.rng
+    mu = 0.0121505856
+    system = System.from_mu(mu)
+    f = lambda t, y: _crtbp_accel(y, mu)
+    for first in (1, -1):
+        x0 = np.array([0.8 + 0.02 * rng.uniform(-1, 1), 0.0, 0.05, 0.0, 0.15 + 0.02 * rng.uniform(-1, 1), 0.0])
+        T = rng.choice([0.75, 1.0, 1.25])
+        steps = 33
+        for fwd in (first, -first):
+            ctx.case(("public-propagate", first, fwd, T), kind="public:%+d-then-%+d" % (first, -first))
+            try:
+                traj = system.propagate(x0, tf=T, steps=steps, method="adaptive", order=8, forward=fwd)
+            except Exception as ex:
+                _viol(ctx, "public-propagate-raises", "System.propagate raised %s" % type(ex).__name__, {"forward": fwd, "error": str(ex)[:300]})
+                return
+            ts = np.asarray(traj.times, dtype=float)
+            xs = np.asarray(traj.states, dtype=float)
+            ref = solve_ivp(f, [0.0, fwd * T], x0, method="DOP853", rtol=1e-12, atol=1e-13).y[:, -1]
+            err = _maxerr(xs[-1], ref) / (1.0 + float(np.max(np.abs(x0))))
+            ok_t = np.array_equal(ts, fwd * np.linspace(0.0, T, steps)) and np.array_equal(xs[0], x0)
+            if not ok_t or err > 1e-7:
+                _viol(ctx, "public-propagate:history:%+d-then-%+d" % (first, -first),
+                      "System.propagate(y0, tf=%g, forward=%+d) after the same call with forward=%+d on the same System: stamps %g … %g, end state off the flow at %+g by %.3g" % (
+                          T, fwd, first, ts[0], ts[-1], fwd * T, err),
+                      {"call_sequence": ["system.propagate(y0, tf=%g, steps=%d, method='adaptive', order=8, forward=%+d)" % (T, steps, d) for d in ((first,) if fwd == first else (first, fwd))],
+                       "y0": x0.tolist(), "times_first_last": [float(ts[0]), float(ts[-1])], "end_state": xs[-1].tolist(), "expected_end_state": ref.tolist(), "relative_error": err})
+                return
+
+
 def check_cfg_against_findings(ctx, cfg):
     """Each switch value that makes a clause fail (negation theorems in Props/C10.lean) must be rediscovered as a concrete
     failing input by the numerical search above; report if a negation is 'proved' but no failing input was found."""
@@ -1094,6 +1131,7 @@ def run(ctx):
     validate_dense_at_zero(ctx)
     numerics_lowlevel(ctx)
     numerics_propagate(ctx)
+    numerics_public(ctx)
     check_cfg_against_findings(ctx, _CACHE["cfg"])
     ctx.search_ran = True
     ctx.assumptions += [
